@@ -46,8 +46,23 @@ def _worker(func, jobs, indices, wfd, init, quiet=True):
         os._exit(0)
 
 
-def pmap(func, jobs, nproc=None, init=None, job_timeout=120):
-    """results[i] = func(jobs[i]) or Crashed(i, status).  Order preserved."""
+def pmap(func, jobs, nproc=None, init=None, job_timeout=120, retry_timeouts=True):
+    """results[i] = func(jobs[i]) or Crashed(i, status).  Order preserved.
+    A job that only TIMED OUT is run once more on its own (nothing else running, twice the time) before it is reported
+    as Crashed: on a loaded machine a time-out is not evidence of a hang."""
+    jobs = list(jobs)
+    results = _pmap(func, jobs, nproc, init, job_timeout)
+    if retry_timeouts:
+        for i, r in enumerate(results):
+            if isinstance(r, Crashed) and r.timed_out:
+                again = _pmap(func, [jobs[i]], 1, init, 2 * job_timeout)[0]
+                if isinstance(again, Crashed):
+                    again.job_index = i
+                results[i] = again
+    return results
+
+
+def _pmap(func, jobs, nproc=None, init=None, job_timeout=120):
     jobs = list(jobs)
     n = len(jobs)
     results = [None] * n
